@@ -162,6 +162,79 @@ pub fn run_mmrp_more(op: &str, a: &[Arg], st: &mut Stats) -> Option<Out> {
                         .with_oracle((0..t.min(8)).all(|j| !mps[j].verify(tidx[j] ^ 1, new_leaves[tidx[j] as usize], &acc.peaks(), acc.num_leafs()) || new_leaves[tidx[j] as usize] == new_leaves[(tidx[j] ^ 1) as usize % n])
                             && (0..t.min(8)).all(|j| mps[j].verify(tidx[j], new_leaves[tidx[j] as usize], &acc.peaks(), acc.num_leafs())), "membership proof: accepted for the sibling index, or rejected for its own index right after a rejected claim")
                 }
+                ("memberupd", [t]) => {
+                    // the STATIC batch routines of MmrMembershipProof with MANY tracked proofs (a chunked / parallel
+                    // rewrite must still report the right positions): batch_update_from_leaf_mutation,
+                    // batch_update_from_batch_leaf_mutation, batch_update_from_append
+                    let t = t.usize()?;
+                    if t > n { return None; }
+                    let f = Forest::new(&leaves);
+                    let tidx: Vec<u64> = (0..t).map(|j| ((j as u64) * 7 + 3) % n as u64).collect();
+                    let mut o = Out::ok(format!("ok:{}|{}", n, t));
+                    // (1) one leaf mutation, every tracked proof passed through the batch routine
+                    for &mi in &[(n as u64) / 2, n as u64 - 1, 0] {
+                        let nl = r.digest_u();
+                        let mut new_leaves = leaves.clone();
+                        new_leaves[mi as usize] = nl;
+                        let f2 = Forest::new(&new_leaves);
+                        let mut mps: Vec<MmrMembershipProof> = tidx.iter().map(|&i| MmrMembershipProof::new(f.path(i))).collect();
+                        let before = mps.clone();
+                        let mut modified: Vec<usize> =
+                            MmrMembershipProof::batch_update_from_leaf_mutation(&mut mps, &tidx, LeafMutation::new(mi, nl, MmrMembershipProof::new(f.path(mi)))).into_iter().map(|x| x as usize).collect();
+                        modified.sort_unstable();
+                        modified.dedup();
+                        let want: Vec<usize> = (0..t).filter(|&j| before[j] != mps[j]).collect();
+                        let bad = (0..t).find(|&j| mps[j].authentication_path != f2.path(tidx[j]));
+                        o = o
+                            .with_oracle(bad.is_none(), format!("batch_update_from_leaf_mutation ({} tracked proofs, leaf {} mutated): proof {:?} is not the from-scratch path", t, mi, bad))
+                            .with_oracle(modified == want, format!("batch_update_from_leaf_mutation ({} tracked proofs, leaf {} mutated): reported {} positions, {} proofs changed (first reported {:?}, first changed {:?})", t, mi, modified.len(), want.len(), modified.first(), want.first()));
+                    }
+                    // (2) a batch of mutations
+                    {
+                        let midx = distinct(&mut r, n as u64, 5.min(n));
+                        let mut new_leaves = leaves.clone();
+                        let muts: Vec<LeafMutation> = midx.iter().map(|&i| {
+                            let nl = r.digest_u();
+                            new_leaves[i as usize] = nl;
+                            LeafMutation::new(i, nl, MmrMembershipProof::new(f.path(i)))
+                        }).collect();
+                        let f2 = Forest::new(&new_leaves);
+                        let mut mps: Vec<MmrMembershipProof> = tidx.iter().map(|&i| MmrMembershipProof::new(f.path(i))).collect();
+                        let before = mps.clone();
+                        let mut modified = {
+                            let mut refs: Vec<&mut MmrMembershipProof> = mps.iter_mut().collect();
+                            MmrMembershipProof::batch_update_from_batch_leaf_mutation(&mut refs, &tidx, muts)
+                        };
+                        modified.sort_unstable();
+                        modified.dedup();
+                        let want: Vec<usize> = (0..t).filter(|&j| before[j] != mps[j]).collect();
+                        let bad = (0..t).find(|&j| mps[j].authentication_path != f2.path(tidx[j]));
+                        o = o
+                            .with_oracle(bad.is_none(), format!("batch_update_from_batch_leaf_mutation ({} tracked proofs): proof {:?} is not the from-scratch path", t, bad))
+                            .with_oracle(modified == want, format!("batch_update_from_batch_leaf_mutation ({} tracked proofs): reported {} positions, {} proofs changed", t, modified.len(), want.len()));
+                    }
+                    // (3) an append
+                    {
+                        let nl = r.digest_u();
+                        let mut all = leaves.clone();
+                        all.push(nl);
+                        let f2 = Forest::new(&all);
+                        let mut mps: Vec<MmrMembershipProof> = tidx.iter().map(|&i| MmrMembershipProof::new(f.path(i))).collect();
+                        let before = mps.clone();
+                        let mut modified = {
+                            let mut refs: Vec<&mut MmrMembershipProof> = mps.iter_mut().collect();
+                            MmrMembershipProof::batch_update_from_append(&mut refs, &tidx, n as u64, nl, &f.peaks())
+                        };
+                        modified.sort_unstable();
+                        modified.dedup();
+                        let want: Vec<usize> = (0..t).filter(|&j| before[j] != mps[j]).collect();
+                        let bad = (0..t).find(|&j| mps[j].authentication_path != f2.path(tidx[j]));
+                        o = o
+                            .with_oracle(bad.is_none(), format!("batch_update_from_append ({} tracked proofs): proof {:?} is not the from-scratch path", t, bad))
+                            .with_oracle(modified == want, format!("batch_update_from_append ({} tracked proofs): reported {} positions, {} proofs changed", t, modified.len(), want.len()));
+                    }
+                    o
+                }
                 ("succ", [k]) => {
                     let k = k.usize()?;
                     if k > 1 << 18 { return None; }
@@ -256,6 +329,9 @@ pub fn gen(rng: &mut Rng, thorough: bool, out: &mut Vec<String>) {
     }
     for &(n, m, t) in (if thorough { &[(4097usize, 257usize, 257usize), (4097, 1025, 257), (16385, 1025, 257), (65537, 257, 1025), (1025, 1025, 257), (300, 0, 7)][..] } else { &[(4097usize, 257usize, 257usize), (2049, 1025, 257)][..] }) {
         out.push(format!("mmrp bulk mutate {} {} {} {}", rng.next(), n, m, t));
+    }
+    for &(n, t) in (if thorough { &[(600usize, 600usize), (1025, 1025), (4097, 2049), (300, 257), (255, 255)][..] } else { &[(600usize, 600usize), (1025, 513)][..] }) {
+        out.push(format!("mmrp bulk memberupd {} {} {}", rng.next(), n, t));
     }
     for &(n, k) in (if thorough { &[(1usize, 4097usize), (4097, 4097), (65535, 4097), (65537, 16385), (7, 0), (4096, 1)][..] } else { &[(4097usize, 4097usize), (1023, 4097)][..] }) {
         out.push(format!("mmrp bulk succ {} {} {}", rng.next(), n, k));
